@@ -90,21 +90,25 @@ NOT_YET = {
 
 # what the checks gained after the table above was written (appended to the level text)
 ADDENDA = {
-    "C01": " Raw probe requests are built WITHOUT the router's configuration (the router normalises them itself); the pool also holds a sibling dynamic path that leaves a purely literal tree node.",
-    "C02": " A second, small universe (MC_Router_c02paths: rules sharing a static path and bucket, a rule under two method buckets, a dynamic host) is explored with VIEW ViewKinds = state + the sequence of operation kinds, so that every KIND of path to a state is replayed (hidden counters and flags of the implementation depend on the path, not on the abstract state).",
+    "C13": " Round 4: three-header lists in the quick tier; the same filter sequence also goes through actions BUILT FROM MATCHED RULES (all filters in one rule; one rule per filter by descending rank), so Action::merge is on the path.",
+    "C11": " Round 4: the insertion-order universe of the router (every order of <=3 rules out of dynamic paths / hosts, prefix weekday lists, nested networks, each against the rebuilt router) is replayed by this check too.",
+    "C06": " Round 4: the rich shapes hold an HTML filter with every optional or defaultable field empty; PoolG.",
+    "C03": " Round 4: a document whose held text (bare '<') is followed by multi-byte characters; an html stage before a text replace.",
+    "C01": " Raw probe requests are built WITHOUT the router's configuration (the router normalises them itself); the pool also holds a sibling dynamic path that leaves a purely literal tree node. Round 4: a Tuesday instant and weekday lists that are prefixes of one another next to the same time window, a window whose bounds are written with UTC offsets, nested networks and prefix weekday lists in the insertion-order universe.",
+    "C02": " A second, small universe (MC_Router_c02paths: rules sharing a static path and bucket, a rule under two method buckets, a dynamic host) is explored with VIEW ViewKinds = state + the sequence of operation kinds, so that every KIND of path to a state is replayed (hidden counters and flags of the implementation depend on the path, not on the abstract state). Round 4: the second path-sensitive universe holds a network bucket containing nothing but a rule with an excluded method.",
     "C04": " Conservation is also judged under the byte-level sweeps (every single cut, one byte at a time, empty chunks interleaved), and the gate of the chain (lists that build nothing, empty lists, unsupported encodings, with and without a content encoding) through the inert cases of Pipeline.tla.",
-    "C05": " PoolF adds stop / reset flags on rules that may be sampled out; ids are all-digit strings whose string order is not their numeric order.",
-    "C07": " Captures shaped like the placeholder of their own marker are part of the capture classes, and the rule declares its marker variables so that targets and filter values are really substituted.",
+    "C05": " PoolF adds stop / reset flags on rules that may be sampled out; ids are all-digit strings whose string order is not their numeric order. Round 4: PoolG (a redirect target under lists of three codes written in descending order, included and excluded, probed at 200 / 404 / 500).",
+    "C07": " Captures shaped like the placeholder of their own marker are part of the capture classes, and the rule declares its marker variables so that targets and filter values are really substituted. Round 4: a dimension sibling_rule (a second rule next to the first one: dynamic hosts sharing Cyrillic / CJK / 2-byte / emoji prefixes, a non-ASCII path prefix, the same source twice, both insertion orders, a removal) and a Latin-1 body whose lone continuation bytes arrive in chunks of their own.",
     "C08": " Further universes: non-ASCII text as a literal and inside a group (character count differs from byte count), sibling subtrees accepting the same string, an expression whose program takes several MiB, and two path-exhaustive ones (no VIEW on three case-variant patterns; ViewKinds on three patterns under one node with 5 operations) because the implementation's hidden state depends on the path to an abstract state. The model's regex semantics is checked against the regex crate itself at every run.",
-    "C09": " A catch-all rule whose target takes path and query from a marker is matched against every URL (the forwarded parameters must follow with the separator that target needs), the Location is compared after re-normalisation, and the universe holds an apostrophe (punctuation no encode set touches).",
-    "C10": " Each request is also sent with the header repeated (a value the pattern cannot accept after / before the accepted one); values repeat what the replace transformers look for; a marker expression with a space is used in a header pattern.",
-    "C12": " Same additional tree universes as C08 where they contain cache operations (non-ASCII, multi-MiB program, deeper histories under ViewKinds); the router history pool holds a renamed-marker version of a rule (captures after an update of a warmed router).",
-    "C14": " Content-coding names are also sent in other spellings (GZIP, Br); an empty output is not a complete stream; lists that build nothing must leave every byte untouched whatever the encoding.",
+    "C09": " A catch-all rule whose target takes path and query from a marker is matched against every URL (the forwarded parameters must follow with the separator that target needs), the Location is compared after re-normalisation, and the universe holds an apostrophe (punctuation no encode set touches). Round 4: the EMPTY set of marketing parameters as a configuration, a percent-encoded key next to an ASCII one (encoded order differs from decoded order), and a twin rule with the same literal source that declares markers (must match exactly the same requests).",
+    "C10": " Each request is also sent with the header repeated (a value the pattern cannot accept after / before the accepted one); values repeat what the replace transformers look for; a marker expression with a space is used in a header pattern. Round 4: every request is also observed on a twin router after Router::cache and on a twin router with every ignore-case flag set whose marker names are in camel case (judged when no used marker takes an upper-case value).",
+    "C12": " Same additional tree universes as C08 where they contain cache operations (non-ASCII, multi-MiB program, deeper histories under ViewKinds); the router history pool holds a renamed-marker version of a rule (captures after an update of a warmed router). Design level: the inductive invariant behind LevelBound / GivesUpLate of Router::cache's loop is discharged by Apalache for an unbounded budget (RouterCacheLoopInd.tla: initiation, consecution, implication).",
+    "C14": " Content-coding names are also sent in other spellings (GZIP, Br); an empty output is not a complete stream; lists that build nothing must leave every byte untouched whatever the encoding. Round 4: a 70 kB block of noise (one encoder call has to emit more than the codec's internal buffer), an html stage before / after a text replace, and LISTS of codings (deflate, gzip ...) as unsupported encodings.",
     "C15": " Selectors are .x or N.x (type + class, case-insensitive on the element name); documents hold '>' inside quoted attributes, upper-case elements, comments inside buffered elements (comments belong to the domain), depth-1 paths; the selectors of later filters see the document as the earlier filters left it.",
-    "C16": " Lexeme documents and a random family of VALID multi-byte inputs contain characters whose UTF-8 continuation bytes are 0x85 / 0xA0, upper-case raw-text and table elements.",
+    "C16": " Lexeme documents and a random family of VALID multi-byte inputs contain characters whose UTF-8 continuation bytes are 0x85 / 0xA0, upper-case raw-text and table elements. Round 4: all strings up to length 4 (thorough 5) over an alphabet of FRAGMENTS (raw-text elements, partial end tags, script-data escapes, characters of 2 / 3 / 4 bytes, NUL).",
     "C17": " Raw requests are built without the router's configuration, and one configuration rewrites no URL at all (only host / header case).",
     "C18": " The model also has api_get_rule_api_version and trusted_proxies_add_proxy (parsable or not), filter objects with and without an HTML stage, a payload the filter answers with fewer bytes than it was given; answers remember their payload so that they are distinct states. The driver runs the sequences in several processes (the allocator audit is per process).",
-    "C19": " UnitTrace.tla specifies the attribution of effects to units (add / override per target, squash) behind the applied / seen unit ids and is bound to the real UnitTrace and to FilterHeaderAction with unit ids. The chain universe has two project hosts (a host-less Location is joined to the URL of the hop that answered it); the impact of a re-edited draft (another version of the changed rule under the same action) is compared project vs standalone; the rules an explanation reports as applied are compared with those the live pipeline applies.",
+    "C19": " UnitTrace.tla specifies the attribution of effects to units (add / override per target, squash) behind the applied / seen unit ids and is bound to the real UnitTrace and to FilterHeaderAction with unit ids. The chain universe has two project hosts (a host-less Location is joined to the URL of the hop that answered it); the impact of a re-edited draft (another version of the changed rule under the same action) is compared project vs standalone; the rules an explanation reports as applied are compared with those the live pipeline applies. Round 4: the filter-only rule also acts on a backend 200, the code an analysis assumes when the example gives none.",
 }
 
 ALL = ["C%02d" % i for i in range(1, 20)]
@@ -144,6 +148,8 @@ def main():
         "engines": [
             {"name": "tlc", "path": "/opt/veriftools/tla/tla2tools.jar", "serves_properties": sorted(CHECKS),
              "kind_free_text": "TLC explicit-state model checker: exhaustive check of the TLA+ specifications in /verif/spec, generation of behaviours for replay, validation of recorded traces"},
+            {"name": "apalache", "path": "/opt/veriftools/apalache", "serves_properties": ["C12"],
+             "kind_free_text": "Apalache symbolic model checker: discharges the inductive invariant of RouterCacheLoopInd.tla (design level, unbounded constants); never decides a verdict on the code"},
             {"name": "harness", "path": "/verif/harness", "serves_properties": sorted(CHECKS),
              "kind_free_text": "Rust driver/recorder linked against the real library built from /repo (no oracle logic)"},
         ],
